@@ -251,25 +251,38 @@ fn file_storage(file: &[u8], tolerant: bool) -> Result<St, String> {
     Ok(st)
 }
 
+/// the comparison dictionary: d without the key, or (key field `key=<canon>`) d with that value under the key
+fn split_key(key: &str) -> (&str, Option<Primitive>) {
+    match key.find('=') {
+        Some(i) => (&key[..i], uncanon(key[i + 1..].as_bytes())),
+        None => (key, None),
+    }
+}
+fn base_dict(d: &Dictionary, key: &str, alt: Option<Primitive>) -> Dictionary {
+    let mut b = Dictionary::new();
+    for (k, v) in d.iter() { if k.as_str() != key { b.insert(k.clone(), v.clone()); } }
+    if let Some(q) = alt { b.insert(key, q); }
+    b
+}
 fn dangling<T: Object + ObjectWrite>(st: &mut St, d: &Dictionary, key: &str, r: Primitive) -> R {
     let n = st_len(st);
+    let (key, alt) = split_key(key);
     let mut a = d.clone();
     a.insert(key, r);
     let mut next = n;
     let (mut out, _) = step_rw::<T>(st, Primitive::Dictionary(a), &mut next, false);
-    let mut b = Dictionary::new();
-    for (k, v) in d.iter() { if k.as_str() != key { b.insert(k.clone(), v.clone()); } }
+    let b = base_dict(d, key, alt);
     out.push(b"|".to_vec());
     let (o2, _) = step_rw::<T>(st, Primitive::Dictionary(b), &mut next, false);
     out.extend(o2);
     Ok(out)
 }
 fn dangling_r<T: Object>(st: &mut St, d: &Dictionary, key: &str, r: Primitive) -> R {
+    let (key, alt) = split_key(key);
     let mut a = d.clone();
     a.insert(key, r);
     let mut out = step_r::<T>(st, Primitive::Dictionary(a));
-    let mut b = Dictionary::new();
-    for (k, v) in d.iter() { if k.as_str() != key { b.insert(k.clone(), v.clone()); } }
+    let b = base_dict(d, key, alt);
     out.push(b"|".to_vec());
     out.extend(step_r::<T>(st, Primitive::Dictionary(b)));
     Ok(out)
